@@ -891,6 +891,15 @@ func (e *engineA) memberAction() {
 			if len(members) == 0 {
 				continue
 			}
+			if e.rng.Intn(6) == 0 {
+				// an action that does not exist
+				id := members[e.rng.Intn(len(members))]
+				n := conf.Nodes[id]
+				n.Action = raft.Action(5 + e.rng.Intn(250))
+				conf.Nodes[id] = n
+				desc += fmt.Sprintf("ILLEGAL-action(%d,%d) ", id, n.Action)
+				continue
+			}
 			if e.rng.Intn(4) == 0 && len(members) < e.prof.MaxIDs {
 				// a new node that votes from the start
 				if id := e.newNodeID(&conf); id != 0 {
